@@ -128,6 +128,25 @@ impl Ctx {
         }
     }
 
+    pub fn merge(&mut self, other: Ctx) {
+        self.evaluations += other.evaluations;
+        self.nontrivial.extend(other.nontrivial);
+        for (k, v) in other.classes {
+            *self.classes.entry(k).or_insert(0) += v;
+        }
+        for smp in other.samples {
+            if self.samples.len() < self.max_samples && !self.samples.contains(&smp) {
+                self.samples.push(smp);
+            }
+        }
+        self.violations.extend(other.violations);
+        for k in other.known_hit {
+            if !self.known_hit.contains(&k) {
+                self.known_hit.push(k);
+            }
+        }
+    }
+
     pub fn replay_dir(&self) -> PathBuf {
         verif_root().join("replays").join(&self.property)
     }
@@ -181,7 +200,8 @@ impl Ctx {
             "wall_s": (self.start.elapsed().as_secs_f64() * 100.0).round() / 100.0,
             "violations": self.violations.len(),
         });
-        let dir = verif_root().join("evidence");
+        // VERIF_EVIDENCE_DIR: mutant runs (tools/mutant.sh) must not overwrite the evidence of the real tree
+        let dir = std::env::var("VERIF_EVIDENCE_DIR").map(PathBuf::from).unwrap_or_else(|_| verif_root().join("evidence"));
         std::fs::create_dir_all(&dir).map_err(|e| e.to_string())?;
         let path = dir.join(format!("{}.json", self.property));
         std::fs::write(&path, serde_json::to_string_pretty(&ev).unwrap()).map_err(|e| e.to_string())
